@@ -40,4 +40,25 @@
 #define V_INPUT(T) T nondet_##T(void);
 #endif
 
+
+/* Tie the first bytes of a harness-built buffer of symbolic size n to a fixed-size array of the
+ * input record, position by position and loop-free (CBMC: assumptions on the nondet heap
+ * content; native replay: stores), so that the counterexample bytes are part of `in`. */
+#ifdef VERIF_NATIVE
+#define V_TIE1(b, n, s, k) do { if((size_t)(k) < (size_t)(n)) (b)[k] = (s)[k]; } while(0)
+#elif defined(VERIF_TIE)
+#define V_TIE1(b, n, s, k) do { if((size_t)(k) < (size_t)(n)) __CPROVER_assume((b)[k] == (s)[k]); } while(0)
+#else
+/* proof runs leave the heap content unconstrained (ties cost minutes); the driver re-runs a unit
+ * with -DVERIF_TIE only after an obligation failed, to obtain a replayable counterexample */
+#define V_TIE1(b, n, s, k) ((void)0)
+#endif
+#define V_TIE4(b, n, s, k)  V_TIE1(b, n, s, k); V_TIE1(b, n, s, (k) + 1); V_TIE1(b, n, s, (k) + 2); V_TIE1(b, n, s, (k) + 3)
+#define V_TIE16(b, n, s, k) V_TIE4(b, n, s, k); V_TIE4(b, n, s, (k) + 4); V_TIE4(b, n, s, (k) + 8); V_TIE4(b, n, s, (k) + 12)
+#define V_TIE64(b, n, s, k) V_TIE16(b, n, s, k); V_TIE16(b, n, s, (k) + 16); V_TIE16(b, n, s, (k) + 32); V_TIE16(b, n, s, (k) + 48)
+#define V_TIE128(b, n, s, k) V_TIE64(b, n, s, k); V_TIE64(b, n, s, (k) + 64)
+#define V_TIE192(b, n, s, k) V_TIE128(b, n, s, k); V_TIE64(b, n, s, (k) + 128)
+/* NOTE: b must be the BASE of the object (constant indices): ties through a pointer with a
+ * symbolic offset cost ~10 s each in CBMC 6.11, constant-index ties are free. */
+
 #endif
